@@ -1266,6 +1266,19 @@ def check(case):
                 # parameters per individual again when n_ids changes, so custom names do not survive)
                 if not _cov_hetero(ad.pop) and not (ad.renamed and popgen.has(ad.pop, 'hetero')):
                     cur.obj.set_n_ids(ad.n_ids + 1)
+                    # in between: the parameters fixed by name are still the fixed ones (a heterogeneous part in
+                    # front of them has grown by one individual)
+                    with case.clause('names_counts'):
+                        fixed_names = [cur.names[i] for i in sorted(cur.fixed)]
+                        if popgen.has(ad.pop, 'hetero'):
+                            wide = ref.pop_names(ad.pop, ad.n_ids + 1, ad.dims)
+                        else:
+                            wide = list(cur.names)
+                        case.equal(list(cur.obj.get_parameter_names()), [nm for nm in wide if nm not in fixed_names],
+                                   'op %d: names of the free parameters after set_n_ids(%d) with %s fixed' % (
+                                       step, ad.n_ids + 1, fixed_names))
+                        case.equal(int(cur.obj.n_parameters()), len(wide) - len(fixed_names),
+                                   'op %d: n_parameters after set_n_ids(%d)' % (step, ad.n_ids + 1))
                     cur.obj.set_n_ids(ad.n_ids)
             elif o == 'set_data':
                 ad.set_data(cur.obj)
